@@ -66,6 +66,7 @@ func runScenario(s scenario, idx int) result {
 		return res
 	}
 	item := map[string]interface{}{}
+	viaScript := false
 	now := time.Now().Unix()
 	switch s.Encoding {
 	case "expires-num":
@@ -86,6 +87,12 @@ func runScenario(s scenario, idx int) result {
 		item["ttl"] = float64(s.Ahead)
 	case "ttl-dur":
 		item["ttl"] = fmt.Sprintf("%ds", s.Ahead)
+	case "ttl-int64":
+		// a whole number of seconds as Go callers and scripts pass it (otto exports 5 as int64)
+		item["ttl"] = int64(s.Ahead)
+	case "ttl-script":
+		viaScript = true
+		item["ttl"] = float64(s.Ahead)
 	}
 	ctx := drv.Ctx()
 	for _, b := range bystanders[:3] {
@@ -93,7 +100,11 @@ func runScenario(s scenario, idx int) result {
 	}
 	loc.AddRule(ctx, "byrule", core.Map{"when": map[string]interface{}{"pattern": map[string]interface{}{"tick": "tock"}}, "action": map[string]interface{}{"code": "'bystander'"}})
 	res.WBefore = time.Now().Unix()
-	if s.Kind == "fact" {
+	if s.Kind == "fact" && viaScript {
+		item["what"] = "timed"
+		js, _ := json.Marshal(item)
+		_, err = loc.RunJavascript(ctx, "Env.AddFact('it', "+string(js)+")", nil, nil, nil)
+	} else if s.Kind == "fact" {
 		item["what"] = "timed"
 		_, err = loc.AddFact(ctx, "it", core.Map(item))
 	} else {
@@ -238,7 +249,7 @@ func judge(r *rep.Report, res result) {
 	switch s.Encoding {
 	case "expires-num", "expires-rfc3339", "expires-rfc3339-east", "expires-rfc3339-west":
 		lo, hi = res.Given, res.Given
-	case "ttl-num", "ttl-dur":
+	case "ttl-num", "ttl-dur", "ttl-int64", "ttl-script":
 		lo, hi = res.WBefore+int64(s.Ahead), res.WAfter+int64(s.Ahead)
 	case "none":
 		lo, hi = 1<<62, 1<<62
@@ -322,7 +333,7 @@ func main() {
 	rounds := e.Pick(1, 3)
 	for round := 0; round < rounds; round++ {
 		for _, kind := range []string{"fact", "rule"} {
-			for _, enc := range []string{"expires-num", "expires-rfc3339", "expires-rfc3339-east", "expires-rfc3339-west", "ttl-num", "ttl-dur", "none"} {
+			for _, enc := range []string{"expires-num", "expires-rfc3339", "expires-rfc3339-east", "expires-rfc3339-west", "ttl-num", "ttl-dur", "ttl-int64", "ttl-script", "none"} {
 				for _, state := range drv.Kinds {
 					for variant := 0; variant < 5; variant++ {
 						ahead := 3 + g.Intn(2)
